@@ -325,6 +325,35 @@ func cmdDrive(args []string) {
 			okRace, report = test(plan)
 		}
 		if !okRace {
+			// maybe the report depends on what earlier runs of that worker
+			// left behind in the process: retry with those runs as a prefix
+			for _, j := range jobs {
+				if j.race && j.stats != nil && sd > j.stats.FirstSeed && sd < j.stats.FirstSeed+int64(j.stats.Runs) {
+					pp := plan.clone()
+					for s0 := j.stats.FirstSeed; s0 < sd; s0++ {
+						pp.Prefix = append(pp.Prefix, s0)
+					}
+					if ok2, rep2 := test(pp); ok2 {
+						// keep only the part of the prefix that is needed
+						dl := time.Now().Add(60 * time.Second)
+						for chunk := len(pp.Prefix); chunk >= 1 && time.Now().Before(dl); chunk /= 2 {
+							for at := 0; at+chunk <= len(pp.Prefix) && time.Now().Before(dl); {
+								q := pp.clone()
+								q.Prefix = append(append([]int64{}, pp.Prefix[:at]...), pp.Prefix[at+chunk:]...)
+								if ok3, rep3 := test(q); ok3 {
+									pp, rep2 = q, rep3
+								} else {
+									at += chunk
+								}
+							}
+						}
+						plan, okRace, report = pp, true, rep2
+					}
+					break
+				}
+			}
+		}
+		if !okRace {
 			if b.raceFilter != "" {
 				raceIgnored++
 				continue // a race that does not involve this property's mechanism: C12's business
@@ -400,7 +429,12 @@ func cmdDrive(args []string) {
 		"violations":  nViol,
 		"assumptions": assumptions(*prop),
 	}
+	instrLine := ""
+	if ib, err := os.ReadFile(filepath.Join(*work, "instrument.log")); err == nil {
+		instrLine = strings.TrimSpace(string(ib))
+	}
 	cov := map[string]interface{}{
+		"library_sync_instrumentation":          instrLine,
 		"evaluations":                           total.Runs,
 		"distinct_nontrivial":                   total.DistinctN,
 		"rule":                                  ruleText(*prop),
